@@ -18,7 +18,7 @@ RULE = (
 )
 ASSUMPTIONS = [
     "real-valued parameters are covered on the finite catalogue + VERIF_SEED-indexed generic reals (cond<=1e3) only",
-    "sizes bounded: D,Dx,Dy<=3 (thorough 4), R<=3 (thorough 4)",
+    "sizes bounded as stated in coverage.bounds (quick: D<=3 plus a D=5,R=5 shard; thorough: D<=5, R<=5)",
 ]
 BOUNDS = {"quick": dict(D=[1, 2, 3], R=[1, 2, 3, 4]), "thorough": dict(D=[1, 2, 3, 4, 5], R=[1, 2, 3, 4, 5])}
 BUDGET = {"quick": 600, "thorough": 3600}
